@@ -48,6 +48,7 @@ WORKLOADS = {
     "per-sync-f2m1": dict(solver="per", kw=dict(epsilon=1e-6, checkpoint_frequency=2, max_checkpoints=1, enable_async_checkpointing=False)),
     "pi-async-f1m2": dict(solver="pi", kw=dict(epsilon=1e-6, max_eval_iter=2, checkpoint_frequency=1, max_checkpoints=2, enable_async_checkpointing=True)),
     "vi-async-f1m1": dict(solver="vi", kw=dict(epsilon=1e-6, checkpoint_frequency=1, max_checkpoints=1, enable_async_checkpointing=True)),
+    "rvi-sync-f2m2": dict(solver="rvi", kw=dict(epsilon=1e-6, checkpoint_frequency=2, max_checkpoints=2, enable_async_checkpointing=False)),
 }
 
 
@@ -119,9 +120,10 @@ def run(tier, seed, scratch, limit):
         t0, t1 = info[w]["t_solve"], info[w]["t_done"]
         add(kind="wall", workload=w, at=float(rng.uniform(t0 - 0.1, t1 + 0.05)), delay=({"*": 0.02} if i % 3 == 0 else None))
     # crash -> restore -> crash -> restore chains in the same directory
-    nchain = 2 if tier == "quick" else 30
+    nchain = 3 if tier == "quick" else 35
     for i in range(nchain):
-        w = names[int(rng.integers(0, len(names)))]
+        # (the last workload - relative value iteration - always gets a chain: its loop is a separate copy)
+        w = names[-1] if i == 0 else names[int(rng.integers(0, len(names)))]
         N = info[w]["n_events"]
         add(kind="chain", workload=w, kill_at=int(rng.integers(N // 3, N + 1)), second_kill_at=int(rng.integers(2, 40)))
     if limit:
